@@ -98,6 +98,9 @@ def classify(ob, cex):
                 t = t[2:]
             if t.startswith('~'):
                 return 'C12-F13'
+            if ob.fn == 'p_parent_append' and '/' in t.rstrip('/') and \
+                    t.rstrip('/').rsplit('/', 1)[1][1:2] == ':':
+                return 'C12-F20'
             if t[1:2] == ':' or '/../' in t or t.endswith('/..'):
                 try:
                     from bfg9000.path import Path
